@@ -126,7 +126,7 @@ def mentions (A : Arr) (f : Option Nat) : Bool :=
   | none => false
   | some x => (A.toList.drop 2).any (·.var == x)
 
-def handle (key : String) (ins obs : List String) : Verdict :=
+def handleBase (key : String) (ins obs : List String) : Verdict :=
   match key, ins, obs with
   | "C04.bin", [table, conn, l, r, fl, fr, fo], [fused, sep] =>
     match conn.toNat?, parseArr? l, parseArr? r, parseOptNat? fl, parseOptNat? fr, parseOptNat? fo with
@@ -177,5 +177,23 @@ def handle (key : String) (ins obs : List String) : Verdict :=
           (if A.size > 65536 || B.size > 65536 || C.size > 65536 then ["big-operand"] else []) }
     | _, _, _, _, _, _, _, _ => Verdict.bad "args"
   | _, _, _ => Verdict.bad ("key " ++ key)
+
+/-- Aliasing cases: the same function in several operand positions, passed by the harness either as the SAME
+    object (`alias`) or as equal clones (`clone`). Values have no identity in the model and in the property, so
+    both modes are judged exactly like the plain case with the operand repeated. -/
+def handle (key : String) (ins obs : List String) : Verdict :=
+  match key, ins with
+  | "C04.binA", mode :: table :: conn :: a :: rest =>
+    if mode != "alias" && mode != "clone" then Verdict.bad "mode" else
+    let v := handleBase "C04.bin" (table :: conn :: a :: a :: rest) obs
+    { v with tags := v.tags ++ [mode] }
+  | "C04.terA", mode :: pat :: table :: conn :: a :: b :: rest =>
+    if mode != "alias" && mode != "clone" then Verdict.bad "mode" else
+    match pat.toList.map (fun ch => if ch == 'b' then b else a) with
+    | [x, y, z] =>
+      let v := handleBase "C04.ter" (table :: conn :: x :: y :: z :: rest) obs
+      { v with tags := v.tags ++ [mode, "pat-" ++ pat] }
+    | _ => Verdict.bad "pattern"
+  | _, _ => handleBase key ins obs
 
 end B.Drive.C04
